@@ -575,6 +575,35 @@ impl d128 {
         }
     }
 
+    /// The member of the cohort of `self` whose exponent is closest to zero (all NaNs,
+    /// and both zeros, map to one representative each), so that `a == b` implies equal hashes.
+    #[must_use]
+    pub (crate) fn hash_normal_form(&self) -> Self {
+        if self.is_nan() {
+            return NAN;
+        }
+        if self.is_infinite() {
+            return if self.is_sign_minus() { NEGATIVE_INFINITY } else { INFINITY };
+        }
+        if self.is_zero() {
+            return ZERO;
+        }
+        // canonical, finite, non-zero
+        let sign: u64  = self.w[1] & MASK_SIGN;
+        let mut exp    = ((self.w[1] & MASK_EXP) >> 49) as i32 - DECIMAL_EXPONENT_BIAS_128;
+        let mut coeff  = (((self.w[1] & MASK_COEFF) as u128) << 64) | (self.w[0] as u128);
+        const TEN33: u128 = 1_000_000_000_000_000_000_000_000_000_000_000u128;
+        while exp < 0 && coeff % 10 == 0 {
+            coeff /= 10;
+            exp   += 1;
+        }
+        while exp > 0 && coeff < TEN33 {
+            coeff *= 10;
+            exp   -= 1;
+        }
+        Self::new(sign | (((exp + DECIMAL_EXPONENT_BIAS_128) as u64) << 49) | ((coeff >> 64) as u64), coeff as u64)
+    }
+
     /// Returns x * 10^N
     #[must_use]
     pub fn scaleb(&self, n: i32, rnd_mode: Option<RoundingMode>, pfpsf: &mut _IDEC_flags) -> Self {
@@ -1545,8 +1574,10 @@ impl std::hash::Hash for d128 {
     /// ```
     #[inline]
     fn hash<H: std::hash::Hasher>(&self, state: &mut H) {
-        state.write_u64(self.w[0]);
-        state.write_u64(self.w[1]);
+        // equal values must hash equally (Eq is numeric): hash one member of the cohort
+        let n = self.hash_normal_form();
+        state.write_u64(n.w[0]);
+        state.write_u64(n.w[1]);
     }
 
     /// Computes the hash of a sequence of decimal floating point numbers.
@@ -1560,8 +1591,8 @@ impl std::hash::Hash for d128 {
     /// ```
     #[inline]
     fn hash_slice<H: std::hash::Hasher>(data: &[d128], state: &mut H) {
-        let newlen: usize  = std::mem::size_of_val(data);
-        let ptr: *const u8 = data.as_ptr() as *const u8;
-        state.write(unsafe { std::slice::from_raw_parts(ptr, newlen) })
+        for d in data {
+            d.hash(state);
+        }
     }
 }
